@@ -188,6 +188,9 @@ Definition run_r (op : nat) (r : rangeops IX) (a : list xq) : list xq :=
   | 7 => out_box r (r_default r)
   | 8 => out_box r (r_emptyty r)
   | 9 => out_box r (r_extendb r (r_default r) (box_of r 0 a))
+  | 17 => out_box r (r_zero r)
+  | 18 => out_box r (r_one r)
+  | 19 => out_box r (r_single r (vec_of r 0 a))
   | _ => bad
   end%nat.
 
@@ -239,6 +242,26 @@ Definition run_misc (op code : nat) (a : list xq) : list xq :=
   | 41, 31 => comps (ops_3f IX)
                 (xfmPoint__AffineSpaceT_LinearSpace3_v3f_v3f_v3f IX
                    (mk_AffineSpaceT_LinearSpace3_vec3_vec3 IX (mk_LinearSpace3_vec3 IX (v3 0 a) (v3 1 a) (v3 2 a)) (v3 3 a)) (v3 4 a))
+  | 41, 32 => comps (ops_3af IX)
+                (xfmPoint__AffineSpaceT_LinearSpace3_v3af_v3af_v3af IX
+                   (mk_AffineSpaceT_LinearSpace3_vec3a_vec3a IX (mk_LinearSpace3_vec3a IX (v3a 0 a) (v3a 1 a) (v3a 2 a)) (v3a 3 a)) (v3a 4 a))
+  (* explicit range_t(const range_t<other_t> &): the box of the sibling element type of the same dimension *)
+  | 27, 11 => out_box (ops_1f IX) (range_t_f_mk__range_t_i IX (box_of (ops_1i IX) 0 a))
+  | 27, 10 => out_box (ops_1i IX) (range_t_i_mk__range_t_f IX (box_of (ops_1f IX) 0 a))
+  | 27, 21 => out_box (ops_2f IX) (range_t_v2f_mk__range_t_v2i IX (box_of (ops_2i IX) 0 a))
+  | 27, 20 => out_box (ops_2i IX) (range_t_v2i_mk__range_t_v2f IX (box_of (ops_2f IX) 0 a))
+  | 27, 31 => out_box (ops_3f IX) (range_t_v3f_mk__range_t_v3i IX (box_of (ops_3i IX) 0 a))
+  | 27, 30 => out_box (ops_3i IX) (range_t_v3i_mk__range_t_v3f IX (box_of (ops_3f IX) 0 a))
+  | 27, 32 => out_box (ops_3af IX) (range_t_v3af_mk__range_t_v3f IX (box_of (ops_3f IX) 0 a))
+  | 27, 41 => out_box (ops_4f IX) (range_t_v4f_mk__range_t_v4i IX (box_of (ops_4i IX) 0 a))
+  | 27, 40 => out_box (ops_4i IX) (range_t_v4i_mk__range_t_v4f IX (box_of (ops_4f IX) 0 a))
+  (* intersectRayBox with the default tRange = range_t<T>(0, inf): a = org dir lower upper *)
+  | 51, 21 => let r := intersectRayBox__v2f_v2f_range_t_v2f_range_t_f IX (v2 0 a) (v2 1 a)
+                         (mkbox (ops_2f IX) (v2 2 a) (v2 3 a)) (mk_range_t_s IX (ofz 0) XP) in
+              [range_t_s_lower r; range_t_s_upper r]
+  | 51, 31 => let r := intersectRayBox__v3f_v3f_range_t_v3f_range_t_f IX (v3 0 a) (v3 1 a)
+                         (mkbox (ops_3f IX) (v3 2 a) (v3 3 a)) (mk_range_t_s IX (ofz 0) XP) in
+              [range_t_s_lower r; range_t_s_upper r]
   (* intersectRayBox: a = org dir lower upper tlo thi *)
   | 50, 21 => let r := intersectRayBox__v2f_v2f_range_t_v2f_range_t_f IX (v2 0 a) (v2 1 a)
                          (mkbox (ops_2f IX) (v2 2 a) (v2 3 a)) (mk_range_t_s IX (nthx 8 a) (nthx 9 a)) in
@@ -250,7 +273,7 @@ Definition run_misc (op code : nat) (a : list xq) : list xq :=
   end%nat.
 
 Definition run (op code : nat) (a : list xq) : list xq :=
-  if Nat.ltb op 10 then match find_r code with Some r => run_r op r a | None => bad end
+  if Nat.ltb op 10 || (Nat.leb 17 op && Nat.leb op 19) then match find_r code with Some r => run_r op r a | None => bad end
   else if Nat.ltb op 20 then match find_a code with Some r => run_a op r a | None => bad end
   else if Nat.ltb op 23 then match find_b code with Some r => run_b op r a | None => bad end
   else if Nat.eqb op 23 then match find_t code with Some r => xb (t_touching r (box_of r 0 a) (box_of r 2 a)) | None => bad end
